@@ -18,6 +18,11 @@ import traceback
 VERIF = os.path.dirname(os.path.dirname(os.path.dirname(os.path.abspath(__file__))))
 REPO = os.environ.get('VERIF_REPO', '/repo')
 COQ = os.path.join(VERIF, 'coq')
+if os.path.realpath(REPO) != '/repo':
+  # mutation experiments: a private copy of the Coq tree, so that the regenerated
+  # gen/*.v of a mutated repository never mix with concurrent checks of /repo
+  COQ = '/tmp/verif-coq-' + hashlib.md5(os.path.realpath(REPO).encode()).hexdigest()[:10]
+  subprocess.run(['rsync', '-a', '--delete', '--exclude', 'cases/', os.path.join(VERIF, 'coq') + '/', COQ + '/'], check=True)
 CASES = os.path.join(COQ, 'cases')
 NPROC = int(os.environ.get('VERIF_JOBS', '16'))
 
@@ -217,7 +222,7 @@ def run_coq_cases(prop, header, agree, terms, shard=300, timeout=600):
       f.write(header + '\nImport ListNotations.\n')
       f.write('Definition cases := [\n' + ';\n'.join(sh) + '\n].\n')
       f.write(f'Definition bad := failing {agree} 0 cases.\n')
-      f.write('Eval vm_compute in (length cases, bad).\n')
+      f.write('Eval vm_compute in (List.length cases, bad).\n')
     files.append(fn)
 
   def one(fn):
@@ -505,6 +510,23 @@ def run_property(mod, tier, seed, replay=None):
       if violations:
         break
 
+  # thorough tier: independent re-check of the compiled closure with coqchk
+  coqchk = None
+  if tier == 'thorough' and b['ok']:
+    try:
+      pc = subprocess.run(['coqchk', '-o', '-silent', '-Q', COQ, 'FV', f'FV.Props.{prop}'], capture_output=True,
+                          text=True, timeout=1800, cwd=COQ)
+      tail = (pc.stdout + pc.stderr)[-1500:]
+      m = re.search(r'\* Axioms:(.*?)\n\s*\n\* Constants/Inductives relying on type-in-type', tail, re.S)
+      axioms = ' '.join(m.group(1).split()) if m else None
+      coqchk = {'returncode': pc.returncode, 'axioms': axioms,
+                'type_in_type': '<none>' in tail.split('type-in-type:')[-1][:20] if 'type-in-type:' in tail else None}
+      if pc.returncode != 0:
+        broken.append({'kind': 'coqchk', 'log_tail': tail})
+    except subprocess.TimeoutExpired:
+      coqchk = {'returncode': None, 'axioms': None, 'note': 'coqchk timed out (1800 s)'}
+    log(f'[{prop}] coqchk: {coqchk} at {time.time() - t0:.1f}s')
+
   # decide
   known = known_findings(prop)
   open_keys = {k['key']: k for k in known if k.get('status') == 'open'}
@@ -556,6 +578,7 @@ def run_property(mod, tier, seed, replay=None):
           'samples': [{'case': c, 'observed': o} for c, o in observed[:: max(1, len(observed) // 3)][:3]],
           'input_distribution': dist,
           'partial_clauses': list(getattr(mod, 'PARTIAL', [])),
+          'coqchk': coqchk,
           'known_findings_reproduced': sorted(reported_known),
           'exhaustive': False,
       },
